@@ -36,7 +36,7 @@ class Ticker:
                     self.pos_first = len(S.ACTIVE_REC.ev)
                 ex = getattr(X.SCRIPT, 'executor', None)
                 if ex is not None:
-                    self.running_at_first = [X.SCRIPT.submit_tids[f.id - X.SCRIPT.base] for f, p in ex._running_id_to_future_and_process.values()
+                    self.running_at_first = [X.SCRIPT.submit_tids[f.id - X.SCRIPT.base] for f, p in ex._running_pairs()
                                              if X.SCRIPT.base is not None and f.id - X.SCRIPT.base < len(X.SCRIPT.submit_tids)]
             raise KeyboardInterrupt(f'injected at tick {n}')
 
